@@ -1,0 +1,735 @@
+//go:build verif
+
+package waddrmgr
+
+// Contracts for properties C05, C04, C03 and C08 (comment only).
+
+// ---- C05: locked or watching-only means no private-key access; locking wipes memory ----
+//@ macro LOCKED(m) = (m.locked.v != 0)
+//@ macro WATCHONLY(m) = (m.watchingOnly.v != 0)
+// error class: the error is a ManagerError value carrying code c
+//@ macro IS_MERR(e, c) = (typeis(e, ManagerError) && unbox(e, ManagerError).ErrorCode == c)
+
+// selectCryptoKey returns exactly the key of the requested kind, refuses unknown
+// kinds, and hands out the private / script key only when unlocked
+//@ func (*Manager).selectCryptoKey(m, keyType) (r, err)
+//@   property C05 C04
+//@   requires nonnil: m != nil
+//@   ensures gated: (old(LOCKED(m)) || old(WATCHONLY(m))) && (keyType == 0 || keyType == 1) ==> err != nil && r == nil
+//@   ensures gated_class: (old(LOCKED(m)) || old(WATCHONLY(m))) && (keyType == 0 || keyType == 1) ==> IS_MERR(err, ErrLocked)
+//@   ensures selects_by_type: err == nil ==> (keyType == 0 && r == m.cryptoKeyPriv) || (keyType == 1 && r == m.cryptoKeyScript) || (keyType == 2 && r == m.cryptoKeyPub)
+//@   ensures unknown_kind_refused: keyType != 0 && keyType != 1 && keyType != 2 ==> err != nil && r == nil
+//@   ensures public_always: keyType == 2 ==> err == nil
+//@   ensures unlocked_ok: !old(LOCKED(m)) && !old(WATCHONLY(m)) && (keyType == 0 || keyType == 1) ==> err == nil
+//@   ensures state_untouched: LOCKED(m) == old(LOCKED(m)) && WATCHONLY(m) == old(WATCHONLY(m))
+//@ macro ROOT_LOCKED(a) = (a.manager.rootManager.locked.v != 0)
+//@ macro ROOT_WATCHONLY(a) = (a.manager.rootManager.watchingOnly.v != 0)
+
+//@ func (*managedAddress).PrivKey(a) (r, err)
+//@   property C05
+//@   requires nonnil: a != nil && a.manager != nil && a.manager.rootManager != nil
+//@   ensures gated: old(ROOT_LOCKED(a)) || old(ROOT_WATCHONLY(a)) ==> err != nil && r == nil
+//@   ensures gated_class: (old(ROOT_WATCHONLY(a)) ==> IS_MERR(err, ErrWatchingOnly)) && (old(ROOT_LOCKED(a)) && !old(ROOT_WATCHONLY(a)) ==> IS_MERR(err, ErrLocked))
+
+//@ func (*managedAddress).ExportPrivKey(a) (r, err)
+//@   property C05
+//@   requires nonnil: a != nil && a.manager != nil && a.manager.rootManager != nil
+//@   ensures gated: old(ROOT_LOCKED(a)) || old(ROOT_WATCHONLY(a)) ==> err != nil && r == nil
+//@   ensures gated_class: (old(ROOT_WATCHONLY(a)) ==> IS_MERR(err, ErrWatchingOnly)) && (old(ROOT_LOCKED(a)) && !old(ROOT_WATCHONLY(a)) ==> IS_MERR(err, ErrLocked))
+
+//@ func (*scriptAddress).Script(a) (r, err)
+//@   property C05
+//@   requires nonnil: a != nil && a.manager != nil && a.manager.rootManager != nil
+//@   ensures gated: old(ROOT_LOCKED(a)) || old(ROOT_WATCHONLY(a)) ==> err != nil && r == nil
+//@   ensures gated_class: (old(ROOT_WATCHONLY(a)) ==> IS_MERR(err, ErrWatchingOnly)) && (old(ROOT_LOCKED(a)) && !old(ROOT_WATCHONLY(a)) ==> IS_MERR(err, ErrLocked))
+
+//@ func (*witnessScriptAddress).Script(a) (r, err)
+//@   property C05
+//@   requires nonnil: a != nil && a.manager != nil && a.manager.rootManager != nil
+//@   ensures gated: old(a.isSecretScript) && (old(ROOT_LOCKED(a)) || old(ROOT_WATCHONLY(a))) ==> err != nil && r == nil
+//@   ensures gated_class: old(a.isSecretScript) ==> (old(ROOT_WATCHONLY(a)) ==> IS_MERR(err, ErrWatchingOnly)) && (old(ROOT_LOCKED(a)) && !old(ROOT_WATCHONLY(a)) ==> IS_MERR(err, ErrLocked))
+
+//@ func (*taprootScriptAddress).TaprootScript(a) (r, err)
+//@   property C05
+//@   requires nonnil: a != nil && a.manager != nil && a.manager.rootManager != nil
+//@   ensures gated: old(a.isSecretScript) && (old(ROOT_LOCKED(a)) || old(ROOT_WATCHONLY(a))) ==> err != nil && r == nil
+//@   ensures gated_class: old(a.isSecretScript) ==> (old(ROOT_WATCHONLY(a)) ==> IS_MERR(err, ErrWatchingOnly)) && (old(ROOT_LOCKED(a)) && !old(ROOT_WATCHONLY(a)) ==> IS_MERR(err, ErrLocked))
+
+//@ macro S_LOCKED(s) = (s.rootManager.locked.v != 0)
+//@ macro S_WATCHONLY(s) = (s.rootManager.watchingOnly.v != 0)
+
+// Encrypt / Decrypt with the private or script crypto key need an unlocked manager.
+//@ func (*Manager).Encrypt(m, keyType, in) (r, err)
+//@   property C05
+//@   requires nonnil: m != nil
+//@   ensures gated: (old(LOCKED(m)) || old(WATCHONLY(m))) && (keyType == 0 || keyType == 1) ==> err != nil && r == nil
+//@   ensures gated_class: (old(LOCKED(m)) || old(WATCHONLY(m))) && (keyType == 0 || keyType == 1) ==> IS_MERR(err, ErrLocked)
+//@ func (*Manager).Decrypt(m, keyType, in) (r, err)
+//@   property C05
+//@   requires nonnil: m != nil
+//@   ensures gated: (old(LOCKED(m)) || old(WATCHONLY(m))) && (keyType == 0 || keyType == 1) ==> err != nil && r == nil
+//@   ensures gated_class: (old(LOCKED(m)) || old(WATCHONLY(m))) && (keyType == 0 || keyType == 1) ==> IS_MERR(err, ErrLocked)
+
+// account creation derives from the coin-type private key
+//@ func (*ScopedKeyManager).NewAccount(s, ns, name) (r, err)
+//@   property C05 C04
+//@   requires nonnil: s != nil && s.rootManager != nil
+//@   requires keys: s.rootManager.cryptoKeyPub != nil && s.rootManager.cryptoKeyPriv != nil && KINDS_OK(s.rootManager)
+//@   ensures gated: old(S_LOCKED(s)) || old(S_WATCHONLY(s)) ==> err != nil && r == 0 && DB_SAME()
+//@   ensures gated_class: (old(S_WATCHONLY(s)) ==> IS_MERR(err, ErrWatchingOnly)) && (old(S_LOCKED(s)) && !old(S_WATCHONLY(s)) ==> IS_MERR(err, ErrLocked))
+//@ func (*ScopedKeyManager).NewRawAccount(s, ns, number) (err)
+//@   property C05 C04
+//@   requires nonnil: s != nil && s.rootManager != nil
+//@   requires keys: s.rootManager.cryptoKeyPub != nil && s.rootManager.cryptoKeyPriv != nil && KINDS_OK(s.rootManager)
+//@   ensures gated: old(S_LOCKED(s)) || old(S_WATCHONLY(s)) ==> err != nil && DB_SAME()
+//@   ensures gated_class: (old(S_WATCHONLY(s)) ==> IS_MERR(err, ErrWatchingOnly)) && (old(S_LOCKED(s)) && !old(S_WATCHONLY(s)) ==> IS_MERR(err, ErrLocked))
+
+// key / script import: a locked (not watching-only) manager refuses; a
+// watching-only manager stores only public material (encryptedPrivKey == nil),
+// secret scripts are refused when locked or watching-only
+//@ func (*ScopedKeyManager).importPublicKey(s, ns, serializedPubKey, encryptedPrivKey, addrType, bs) (err)
+//@   property C05 C04
+//@   requires nonnil: s != nil && s.rootManager != nil
+//@   requires priv_only_unlocked: len(encryptedPrivKey) != 0 ==> !S_LOCKED(s) && !S_WATCHONLY(s)
+//@   requires right_key: IS_CIPHER_OR_NIL(encryptedPrivKey, 2)
+//@   requires kinds: KINDS_OK(s.rootManager)
+//@ func (*ScopedKeyManager).ImportPrivateKey(s, ns, wif, bs) (r, err)
+//@   property C05 C04
+//@   requires nonnil: s != nil && s.rootManager != nil && wif != nil && wif.PrivKey != nil
+//@   requires kinds: KINDS_OK(s.rootManager)
+//@   ensures gated: old(S_LOCKED(s)) && !old(S_WATCHONLY(s)) ==> err != nil && r == nil && DB_SAME()
+//@   ensures gated_class: old(S_LOCKED(s)) && !old(S_WATCHONLY(s)) ==> IS_MERR(err, ErrLocked) || IS_MERR(err, ErrWrongNet)
+//@ func (*ScopedKeyManager).importScriptAddress(s, ns, identity, script, bs, addrType, witnessVersion, isSecretScript) (r, err)
+//@   property C05 C04
+//@   requires nonnil: s != nil && s.rootManager != nil
+//@   requires plain_scripts_are_secret: addrType != WitnessScript && addrType != TaprootScript ==> isSecretScript
+//@   requires kinds: KINDS_OK(s.rootManager)
+//@   ensures gated: isSecretScript && (old(S_LOCKED(s)) || old(S_WATCHONLY(s))) ==> err != nil && r == nil && DB_SAME()
+//@   ensures gated_class: isSecretScript ==> (old(S_LOCKED(s)) ==> IS_MERR(err, ErrLocked)) && (!old(S_LOCKED(s)) && old(S_WATCHONLY(s)) ==> IS_MERR(err, ErrWatchingOnly))
+//@ func (*ScopedKeyManager).ImportScript(s, ns, script, bs) (r, err)
+//@   property C05 C04
+//@   requires nonnil: s != nil && s.rootManager != nil
+//@   requires kinds: KINDS_OK(s.rootManager)
+//@   ensures gated: old(S_LOCKED(s)) || old(S_WATCHONLY(s)) ==> err != nil && r == nil && DB_SAME()
+//@   ensures gated_class: (old(S_LOCKED(s)) ==> IS_MERR(err, ErrLocked)) && (!old(S_LOCKED(s)) && old(S_WATCHONLY(s)) ==> IS_MERR(err, ErrWatchingOnly))
+//@ func (*ScopedKeyManager).ImportWitnessScript(s, ns, script, bs, witnessVersion, isSecretScript) (r, err)
+//@   property C05 C04
+//@   requires nonnil: s != nil && s.rootManager != nil
+//@   requires kinds: KINDS_OK(s.rootManager)
+//@   ensures gated: isSecretScript && (old(S_LOCKED(s)) || old(S_WATCHONLY(s))) ==> err != nil && r == nil && DB_SAME()
+//@   ensures gated_class: isSecretScript ==> (old(S_LOCKED(s)) ==> IS_MERR(err, ErrLocked)) && (!old(S_LOCKED(s)) && old(S_WATCHONLY(s)) ==> IS_MERR(err, ErrWatchingOnly))
+//@ func (*ScopedKeyManager).ImportTaprootScript(s, ns, tapscript, bs, witnessVersion, isSecretScript) (r, err)
+//@   property C05 C04
+//@   requires nonnil: s != nil && s.rootManager != nil
+//@   requires kinds: KINDS_OK(s.rootManager)
+//@   ensures gated: isSecretScript && (old(S_LOCKED(s)) || old(S_WATCHONLY(s))) ==> err != nil && r == nil && DB_SAME()
+
+// a new key scope needs the master HD private key unless the manager is watching-only
+//@ func (*Manager).NewScopedKeyManager(m, ns, scope, addrSchema) (r, err)
+//@   property C05 C04
+//@   requires nonnil: m != nil
+//@   requires keys: !WATCHONLY(m) ==> m.cryptoKeyPub != nil && m.cryptoKeyPriv != nil
+//@   requires kinds: KINDS_OK(m)
+//@   ensures gated: old(LOCKED(m)) && !old(WATCHONLY(m)) ==> err != nil && r == nil && DB_SAME()
+//@   ensures gated_class: old(LOCKED(m)) && !old(WATCHONLY(m)) ==> IS_MERR(err, ErrLocked)
+
+// ---- C05 wiping ----
+// The crypto keys are held through the EncryptorDecryptor interface; its only
+// non-test implementation is *cryptoKey (a snacl.CryptoKey array at field 0).
+//@ macro CKBYTE(k, i) = select(select(@M(uint8), fld(k.val, 0)), i)
+//@ iface EncryptorDecryptor.Zero(k)
+//@   trusted
+//@   modifies @M(uint8)
+//@   ensures zeroed: forall i Int :: {CKBYTE(k, i)} 0 <= i && i < 32 ==> CKBYTE(k, i) == 0
+//@   ensures frame: forall o Int :: {select(@M(uint8), o)} o != fld(k.val, 0) ==> select(@M(uint8), o) == select(old(@M(uint8)), o)
+
+//@ func (*cryptoKey).Zero(ck)
+//@   property C05
+//@   requires nonnil: ck != nil
+//@   ensures zeroed: forall i Int :: {ck.CryptoKey[i]} 0 <= i && i < 32 ==> ck.CryptoKey[i] == 0
+
+// address-level wiping
+//@ func (*managedAddress).lock(a)
+//@   property C05
+//@   requires nonnil: a != nil
+//@   ensures cleared: a.privKeyCT == nil
+//@   ensures zeroed: forall i Int :: {old(a.privKeyCT)[i]} 0 <= i && i < len(old(a.privKeyCT)) ==> old(a.privKeyCT)[i] == 0
+//@ func (*baseScriptAddress).lock(a)
+//@   property C05
+//@   requires nonnil: a != nil
+//@   ensures cleared: a.scriptClearText == nil
+//@   ensures zeroed: forall i Int :: {old(a.scriptClearText)[i]} 0 <= i && i < len(old(a.scriptClearText)) ==> old(a.scriptClearText)[i] == 0
+
+// well-formedness of the manager tree (data-structure invariants: the scope, account and
+// address caches hold no nil entries; stated heap-wide for the two caches that are filled lazily)
+//@ macro SCOPES_WF(m) = (forall sk KeyScope :: {has(m.scopedManagers, sk)} m.scopedManagers != nil && has(m.scopedManagers, sk) ==> m.scopedManagers[sk] != nil && m.scopedManagers[sk].rootManager == m)
+//@ macro ACCT_MAPS_WF() = (forall sm *ScopedKeyManager, a Int :: {has(sm.acctInfo, a)} sm.acctInfo != nil && has(sm.acctInfo, a) ==> sm.acctInfo[a] != nil && allocated(sm.acctInfo[a]))
+// every cached account holds its public account key (until Close())
+//@ macro ACCT_PUB_PRESENT() = (forall sm *ScopedKeyManager, a Int :: {has(sm.acctInfo, a)} sm.acctInfo != nil && has(sm.acctInfo, a) ==> sm.acctInfo[a].acctKeyPub != nil)
+//@ macro ADDR_MAPS_WF() = (forall sm *ScopedKeyManager, k Str :: {has(sm.addrs, k)} sm.addrs != nil && has(sm.addrs, k) ==> sm.addrs[k].val != 0)
+//@ macro ACCTS_WIPED(sm) = (forall a Int :: {has(sm.acctInfo, a)} sm.acctInfo != nil && has(sm.acctInfo, a) ==> sm.acctInfo[a].acctKeyPriv == nil)
+// an account private key pointer is only ever dropped after Zero() was called on the key
+//@ macro ACCTKEYS_ZEROED_WHEN_DROPPED() = (forall o Int :: {select(@H(accountInfo.acctKeyPriv), o)} select(@H(accountInfo.acctKeyPriv), o) == select(old(@H(accountInfo.acctKeyPriv)), o)
+//@     || (select(@H(accountInfo.acctKeyPriv), o) == nil && select(hdZeroed, select(old(@H(accountInfo.acctKeyPriv)), o))))
+// clear text of a cached address (through the ManagedAddress interface value)
+//@ macro ADDR_WIPED(v) = ((typeis(v, ptr(managedAddress)) ==> select(@H(managedAddress.privKeyCT), v.val) == nil)
+//@     && (typeis(v, ptr(scriptAddress)) ==> select(@H(baseScriptAddress.scriptClearText), fld(v.val, 0)) == nil))
+//@ macro ADDRS_WIPED(sm) = (forall k Str :: {has(sm.addrs, k)} sm.addrs != nil && has(sm.addrs, k) ==> ADDR_WIPED(sm.addrs[k]))
+
+// (DESIGN §7 D2: the derived private-key cache is not purged by lock(): `derived_keys_purged`
+// is expected to fail on the unchanged code; waddrmgr_lockgate.go demonstrates it.)
+//@ func (*Manager).lock(m)
+//@   property C05
+//@   replay waddrmgr_lockgate.go
+//@   requires nonnil: m != nil && m.cryptoKeyScript != nil && m.cryptoKeyPriv != nil && m.masterKeyPriv != nil && m.masterKeyPriv.Key != nil
+//@   requires wf: SCOPES_WF(m) && ACCT_MAPS_WF() && ADDR_MAPS_WF()
+//@   invariant 1 accounts: forall sk KeyScope :: {select(seen(1), sk)} select(seen(1), sk) && has(m.scopedManagers, sk) ==> ACCTS_WIPED(m.scopedManagers[sk])
+//@   invariant 2 accounts: forall sk KeyScope :: {select(seen(1), sk)} select(seen(1), sk) && has(m.scopedManagers, sk) && m.scopedManagers[sk] != manager ==> ACCTS_WIPED(m.scopedManagers[sk])
+//@   invariant 2 inner: forall a Int :: {select(seen(2), a)} select(seen(2), a) && manager.acctInfo != nil && has(manager.acctInfo, a) ==> manager.acctInfo[a].acctKeyPriv == nil
+// lock() replaces each scoped manager's derived-key cache by an empty one before it
+// wipes that manager's account keys (repair of D2):
+//@   invariant 1 purged: forall sk KeyScope :: {select(seen(1), sk)} select(seen(1), sk) && has(m.scopedManagers, sk) ==> select(lruLen, m.scopedManagers[sk].privKeyCache) == 0
+//@   invariant 2 purged: forall sk KeyScope :: {select(seen(1), sk)} select(seen(1), sk) && has(m.scopedManagers, sk) && m.scopedManagers[sk] != manager ==> select(lruLen, m.scopedManagers[sk].privKeyCache) == 0
+//@   invariant 2 current_purged: select(lruLen, manager.privKeyCache) == 0
+//@   invariant 1 zeroed: ACCTKEYS_ZEROED_WHEN_DROPPED()
+//@   invariant 2 zeroed: ACCTKEYS_ZEROED_WHEN_DROPPED()
+//@   invariant 3 addresses: forall sk KeyScope :: {select(seen(3), sk)} select(seen(3), sk) && has(m.scopedManagers, sk) ==> ADDRS_WIPED(m.scopedManagers[sk])
+//@   invariant 4 addresses: forall sk KeyScope :: {select(seen(3), sk)} select(seen(3), sk) && has(m.scopedManagers, sk) && m.scopedManagers[sk] != manager ==> ADDRS_WIPED(m.scopedManagers[sk])
+//@   invariant 4 inner: forall k Str :: {select(seen(4), k)} select(seen(4), k) && manager.addrs != nil && has(manager.addrs, k) ==> ADDR_WIPED(manager.addrs[k])
+//@   ensures locked: LOCKED(m)
+//@   ensures watch_only_kept: WATCHONLY(m) == old(WATCHONLY(m))
+//@   ensures passphrase_hash_zero: forall i Int :: {m.hashedPrivPassphrase[i]} 0 <= i && i < 64 ==> m.hashedPrivPassphrase[i] == 0
+//@   ensures master_key_zero: forall i Int :: {m.masterKeyPriv.Key[i]} 0 <= i && i < 32 ==> m.masterKeyPriv.Key[i] == 0
+//@   ensures crypto_priv_zero: forall i Int :: {CKBYTE(m.cryptoKeyPriv, i)} 0 <= i && i < 32 ==> CKBYTE(m.cryptoKeyPriv, i) == 0
+//@   ensures crypto_script_zero: forall i Int :: {CKBYTE(m.cryptoKeyScript, i)} 0 <= i && i < 32 ==> CKBYTE(m.cryptoKeyScript, i) == 0
+//@   ensures accounts_wiped: forall sk KeyScope :: {has(m.scopedManagers, sk)} m.scopedManagers != nil && has(m.scopedManagers, sk) ==> ACCTS_WIPED(m.scopedManagers[sk])
+//@   ensures account_keys_zeroed: ACCTKEYS_ZEROED_WHEN_DROPPED()
+//@   ensures derived_keys_purged: forall sk KeyScope :: {has(m.scopedManagers, sk)} m.scopedManagers != nil && has(m.scopedManagers, sk) ==> select(lruLen, m.scopedManagers[sk].privKeyCache) == 0
+//@   ensures addresses_wiped: forall sk KeyScope :: {has(m.scopedManagers, sk)} m.scopedManagers != nil && has(m.scopedManagers, sk) ==> ADDRS_WIPED(m.scopedManagers[sk])
+
+// DeriveFromKeyPathCache hands out address private keys: it must refuse while
+// locked or watching-only. (DESIGN §7 D2: the derived-key LRU cache is consulted
+// before any lock check and is never purged by lock() — `gated` is expected to
+// fail on the unchanged code; waddrmgr_lockgate.go demonstrates it.)
+//@ func (*ScopedKeyManager).DeriveFromKeyPathCache(s, kp) (r, err)
+//@   property C05
+//@   replay waddrmgr_lockgate.go
+//@   requires nonnil: s != nil && s.rootManager != nil && s.privKeyCache != nil
+//@   requires wf: ACCT_MAPS_WF() && ACCT_PUB_PRESENT()
+//@   ensures gated: old(S_LOCKED(s)) || old(S_WATCHONLY(s)) ==> err != nil && r == nil
+
+// WIPED(m): the scalar clear-text holders of the root manager are all-zero
+//@ macro WIPED(m) = ((forall i Int :: {m.hashedPrivPassphrase[i]} 0 <= i && i < 64 ==> m.hashedPrivPassphrase[i] == 0)
+//@     && (forall i Int :: {m.masterKeyPriv.Key[i]} 0 <= i && i < 32 ==> m.masterKeyPriv.Key[i] == 0)
+//@     && (forall i Int :: {CKBYTE(m.cryptoKeyPriv, i)} 0 <= i && i < 32 ==> CKBYTE(m.cryptoKeyPriv, i) == 0)
+//@     && (forall i Int :: {CKBYTE(m.cryptoKeyScript, i)} 0 <= i && i < 32 ==> CKBYTE(m.cryptoKeyScript, i) == 0))
+//@ macro KEYS_PRESENT(m) = (m.cryptoKeyScript != nil && m.cryptoKeyPriv != nil && m.masterKeyPriv != nil && m.masterKeyPriv.Key != nil)
+
+// Lock refuses a watching-only or already locked manager (changing nothing),
+// otherwise runs lock().
+//@ func (*Manager).Lock(m) (err)
+//@   property C05
+//@   requires nonnil: m != nil && (!WATCHONLY(m) ==> KEYS_PRESENT(m))
+//@   requires wf: SCOPES_WF(m) && ACCT_MAPS_WF() && ADDR_MAPS_WF()
+//@   ensures refuses_watch_only: old(WATCHONLY(m)) ==> err != nil && LOCKED(m) == old(LOCKED(m))
+//@   ensures refuses_locked: old(LOCKED(m)) ==> err != nil && LOCKED(m)
+//@   ensures refusal_class: (old(WATCHONLY(m)) ==> IS_MERR(err, ErrWatchingOnly)) && (old(LOCKED(m)) && !old(WATCHONLY(m)) ==> IS_MERR(err, ErrLocked))
+//@   ensures locks: !old(WATCHONLY(m)) && !old(LOCKED(m)) ==> err == nil && LOCKED(m) && WIPED(m)
+//@   ensures watch_only_kept: WATCHONLY(m) == old(WATCHONLY(m))
+
+// Unlock: refuses a watching-only manager; every failure (wrong passphrase,
+// undecryptable key, derivation failure) leaves the manager locked and wiped;
+// success requires the passphrase to derive the stored master key (locked
+// case) or to hash to the remembered salted SHA-512 (already unlocked case).
+//@ macro PASS_DERIVES_MASTER(m, pass) = (sha256B(scryptB(pass, bytes(m.masterKeyPriv.Parameters.Salt), m.masterKeyPriv.Parameters.N,
+//@     m.masterKeyPriv.Parameters.R, m.masterKeyPriv.Parameters.P, 32)) == bytes(m.masterKeyPriv.Parameters.Digest))
+// private derivation with the locked flag still set happens only inside the root manager's
+// critical section (Unlock, after the passphrase was verified); field 0 of Manager is its mutex
+//@ macro ROOT_MTX_HELD(s) = select(held, fld(s.rootManager, 0))
+// no scoped manager is re-pointed to another root, account cache or address cache
+//@ macro SKM_PTRS_KEPT() = (@H(ScopedKeyManager.rootManager) == old(@H(ScopedKeyManager.rootManager)) && @H(ScopedKeyManager.acctInfo) == old(@H(ScopedKeyManager.acctInfo))
+//@     && @H(ScopedKeyManager.addrs) == old(@H(ScopedKeyManager.addrs)))
+//@ func (*ScopedKeyManager).loadAccountInfo(s, ns, account) (r, err)
+//@   property C05 C03
+//@   requires nonnil: s != nil && s.rootManager != nil
+//@   requires wf: ACCT_MAPS_WF() && ACCT_PUB_PRESENT()
+//@   ensures acct_maps_wf: ACCT_MAPS_WF()
+//@   ensures caches_kept: SKM_PTRS_KEPT()
+//@   ensures result: err == nil ==> r != nil
+//@   ensures pub_present: ACCT_PUB_PRESENT()
+//@   ensures result_pub: err == nil ==> r.acctKeyPub != nil
+//@   ensures result_priv_only_unlocked: old(LOCKED_KEYS_WIPED()) && err == nil ==> PRIV_ONLY_UNLOCKED(s, r)
+//@   ensures result_signable_has_key: old(UNLOCKED_KEYS()) && err == nil && SIGNABLE(s, r) ==> r.acctKeyPriv != nil
+//@   ensures lock_state_kept: @H(atomic.Bool.v) == old(@H(atomic.Bool.v))
+//@   ensures edges_kept: HD_EDGES_KEPT()
+//@   ensures account_keys_kept: forall o Int :: {select(@H(accountInfo.acctKeyPriv), o)} oldalloc(o) ==> select(@H(accountInfo.acctKeyPriv), o) == select(old(@H(accountInfo.acctKeyPriv)), o)
+//@       && select(@H(accountInfo.acctKeyEncrypted), o) == select(old(@H(accountInfo.acctKeyEncrypted)), o)
+//@   ensures cached_noop: old(s.acctInfo != nil && has(s.acctInfo, account)) ==> r == old(s.acctInfo[account]) && hdParent == old(hdParent)
+//@   ensures cached: err == nil ==> s.acctInfo != nil && has(s.acctInfo, account) && s.acctInfo[account] == r
+// keyToManaged queues the address for derive-on-unlock; it leaves the caches and the root pointer alone
+//@ func (*ScopedKeyManager).keyToManaged(s, derivedKey, derivationPath, acctInfo) (r, err)
+//@   property C05 C03
+//@   requires nonnil: s != nil && s.rootManager != nil && derivedKey != nil
+//@   requires signable_when_unlocked: SIGNABLE(s, acctInfo) ==> acctInfo.acctKeyPriv != nil && select(hdParent, select(hdParent, derivedKey)) == acctInfo.acctKeyPriv
+//@   requires priv_only_unlocked: PRIV_ONLY_UNLOCKED(s, acctInfo)
+//@   ensures caches_kept: SKM_PTRS_KEPT()
+//@   ensures edges_kept: HD_EDGES_KEPT()
+//@ func (*ScopedKeyManager).deriveKeyFromPath(s, ns, internalAccount, branch, index, private) (addrKey, acctKey, fp, err)
+//@   property C05 C03
+//@   requires nonnil: s != nil && s.rootManager != nil
+//@   requires wf: ACCT_MAPS_WF() && ACCT_PUB_PRESENT()
+//@   requires private_needs_unlocked: private ==> !S_WATCHONLY(s) && (!S_LOCKED(s) || ROOT_MTX_HELD(s))
+//@   ensures acct_maps_wf: ACCT_MAPS_WF()
+//@   ensures pub_present: ACCT_PUB_PRESENT()
+//@   ensures caches_kept: SKM_PTRS_KEPT()
+//@   ensures lock_state_kept: @H(atomic.Bool.v) == old(@H(atomic.Bool.v))
+//@   ensures result: err == nil ==> addrKey != nil
+//@   ensures path: err == nil ==> s.acctInfo != nil && has(s.acctInfo, internalAccount) && select(hdParent, select(hdParent, addrKey)) ==
+//@       ((private && s.acctInfo[internalAccount].acctKeyPriv != nil) ? s.acctInfo[internalAccount].acctKeyPriv : s.acctInfo[internalAccount].acctKeyPub)
+//@   ensures edges_kept: HD_EDGES_KEPT()
+//@   ensures account_keys_kept: forall o Int :: {select(@H(accountInfo.acctKeyPriv), o)} oldalloc(o) ==> select(@H(accountInfo.acctKeyPriv), o) == select(old(@H(accountInfo.acctKeyPriv)), o)
+//@       && select(@H(accountInfo.acctKeyEncrypted), o) == select(old(@H(accountInfo.acctKeyEncrypted)), o)
+//@   ensures result_priv_only_unlocked: old(LOCKED_KEYS_WIPED()) && err == nil ==> PRIV_ONLY_UNLOCKED(s, s.acctInfo[internalAccount])
+//@   ensures result_signable_has_key: old(UNLOCKED_KEYS()) && err == nil && SIGNABLE(s, s.acctInfo[internalAccount]) ==> s.acctInfo[internalAccount].acctKeyPriv != nil
+//@ func (*ScopedKeyManager).deriveKey(s, acctInfo, branch, index, private) (r, err)
+//@   property C05 C03
+//@   requires nonnil: s != nil && s.rootManager != nil && acctInfo != nil
+//@   requires private_needs_unlocked: private ==> !S_WATCHONLY(s) && (!S_LOCKED(s) || ROOT_MTX_HELD(s))
+//@   requires key_present: private ? acctInfo.acctKeyPriv != nil : acctInfo.acctKeyPub != nil
+//@   ensures result: err == nil ==> r != nil
+//@   ensures path: err == nil ==> select(hdParent, select(hdParent, r)) == old(private ? acctInfo.acctKeyPriv : acctInfo.acctKeyPub)
+//@       && select(hdIndex, r) == index && select(hdIndex, select(hdParent, r)) == branch
+//@   ensures edges_kept: HD_EDGES_KEPT()
+
+// DeriveFromKeyPath and the address loader derive the private child only when
+// the manager is unlocked (and not watching-only); otherwise the returned
+// address is built from the public branch and its PrivKey() is gated.
+//@ func (*ScopedKeyManager).DeriveFromKeyPath(s, ns, kp) (r, err)
+//@   property C05 C03
+//@   requires key_state: UNLOCKED_KEYS() && LOCKED_KEYS_WIPED()
+//@   requires nonnil: s != nil && s.rootManager != nil
+//@   requires wf: ACCT_MAPS_WF() && ACCT_PUB_PRESENT()
+//@   ensures lock_state_kept: @H(atomic.Bool.v) == old(@H(atomic.Bool.v))
+// (C16, assumed, not verified) ErrInvalidChild is reported only for child indices
+// that do not derive to a valid key: a fixed set per manager and branch
+//@   assumes invalid_child_is_invalid: goeq(err, hdkeychain.ErrInvalidChild) ==> select(invalidSet(s, kp.Branch), kp.Index)
+//@ func (*ScopedKeyManager).chainAddressRowToManaged(s, ns, row) (r, err)
+//@   property C05 C03
+//@   requires key_state: UNLOCKED_KEYS() && LOCKED_KEYS_WIPED()
+//@   requires nonnil: s != nil && s.rootManager != nil && row != nil
+//@   requires wf: ACCT_MAPS_WF() && ACCT_PUB_PRESENT()
+//@   ensures lock_state_kept: @H(atomic.Bool.v) == old(@H(atomic.Bool.v))
+//@ func (*Manager).Unlock(m, ns, passphrase) (err)
+//@   property C05
+//@   invariant 1 wf: ACCT_MAPS_WF() && ACCT_PUB_PRESENT() && SKM_PTRS_KEPT()
+//@   invariant 2 wf: ACCT_MAPS_WF() && ACCT_PUB_PRESENT() && SKM_PTRS_KEPT()
+//@   invariant 3 wf: ACCT_MAPS_WF() && ACCT_PUB_PRESENT() && SKM_PTRS_KEPT()
+//@   requires nonnil: m != nil && (!WATCHONLY(m) ==> KEYS_PRESENT(m))
+//@   requires wf: SCOPES_WF(m) && ACCT_MAPS_WF() && ADDR_MAPS_WF() && ACCT_PUB_PRESENT()
+//@   ensures watch_only_refused: old(WATCHONLY(m)) ==> err != nil && LOCKED(m) == old(LOCKED(m))
+//@   ensures any_failure_locks: !old(WATCHONLY(m)) && err != nil ==> LOCKED(m) && WIPED(m)
+//@   ensures success_unlocks: err == nil ==> !LOCKED(m) && !WATCHONLY(m)
+//@   ensures wrong_pass_refused: old(LOCKED(m)) && !old(WATCHONLY(m)) && !old(PASS_DERIVES_MASTER(m, bytes(passphrase))) ==> err != nil
+//@   ensures refusal_class: (old(WATCHONLY(m)) ==> IS_MERR(err, ErrWatchingOnly))
+//@       && (old(LOCKED(m)) && !old(WATCHONLY(m)) && !old(PASS_DERIVES_MASTER(m, bytes(passphrase))) ==> IS_MERR(err, ErrWrongPassphrase) || IS_MERR(err, ErrCrypto))
+//@   ensures already_unlocked_checks_hash: !old(LOCKED(m)) && !old(WATCHONLY(m)) && err == nil ==>
+//@       (exists d Bytes :: {sha512B(d)} blen(d) == 32 + len(passphrase) && bat(sha512B(d), 0) == old(m.hashedPrivPassphrase[0]) && bat(sha512B(d), 63) == old(m.hashedPrivPassphrase[63]))
+//@   ensures watch_only_kept: WATCHONLY(m) == old(WATCHONLY(m))
+// OBSERVATION (no obligation): with a watch-only account (imported xpub) in the account
+// cache of a wallet that is not itself watching-only, the loop below hands the EMPTY
+// acctKeyEncrypted to the decryptor, which refuses it, so Unlock fails with ErrCrypto for
+// the RIGHT passphrase (scenario "right_pass" of replay_templates/waddrmgr_lockgate.go).
+// No contract within reach states "the right passphrase unlocks" (it needs success
+// characterisations of scrypt/secretbox); see DESIGN.md 10.3.
+// (C17) the in-memory passphrase check of an already unlocked manager compares the
+// FULL salted SHA-512; a successful unlock remembers exactly that hash
+//@   ensures unlocked_accepts_only_remembered@C17: !old(m.watchingOnly.v != 0) && !old(m.locked.v != 0) && err == nil ==> old(SALTED(m, bytes(passphrase))) == old(bytes(m.hashedPrivPassphrase))
+//@   ensures unlocked_rejects_locks@C17: !old(m.watchingOnly.v != 0) && !old(m.locked.v != 0) && err != nil ==> m.locked.v != 0
+//@   ensures remembers_hash@C17: !old(m.watchingOnly.v != 0) && old(m.locked.v != 0) && err == nil ==> bytes(m.hashedPrivPassphrase) == SALTED(m, old(bytes(passphrase))) && m.locked.v == 0
+
+// ChangePassphrase: no private passphrase on a watching-only manager; the old
+// passphrase must derive the master key being replaced (checked on a copy of its
+// parameters) before anything is written; the lock state is not changed.
+//@ macro PASS_DERIVES_PUB_MASTER(m, pass) = (sha256B(scryptB(pass, bytes(m.masterKeyPub.Parameters.Salt), m.masterKeyPub.Parameters.N,
+//@     m.masterKeyPub.Parameters.R, m.masterKeyPub.Parameters.P, 32)) == bytes(m.masterKeyPub.Parameters.Digest))
+// newSecretKey calls the package-level generator variable secretKeyGen, which is
+// snacl.NewSecretKey (proved: a successful result carries a key) unless a test replaces it.
+// TRUSTED: the dynamic call through the variable cannot be resolved by the generator.
+//@ func newSecretKey(passphrase, config) (r, err)
+//@   trusted
+//@   modifies @M(uint8), randCtr
+//@   ensures result: err == nil ==> r != nil && r.Key != nil && fresh(r)
+//@   ensures failure: err != nil ==> r == nil
+//@ func (*Manager).ChangePassphrase(m, ns, oldPassphrase, newPassphrase, private, config) (err)
+//@   property C05 C04
+//@   requires nonnil: m != nil && m.masterKeyPub != nil && m.masterKeyPub.Key != nil && m.cryptoKeyPub != nil && (!WATCHONLY(m) ==> KEYS_PRESENT(m))
+//@   requires db: MAINWF(ns)
+//@   ensures gated: private && old(WATCHONLY(m)) ==> err != nil && DB_SAME()
+//@   ensures gated_class: private && old(WATCHONLY(m)) ==> IS_MERR(err, ErrWatchingOnly)
+//@   ensures old_checked_private: private && !old(WATCHONLY(m)) && !old(PASS_DERIVES_MASTER(m, bytes(oldPassphrase))) ==> err != nil && DB_SAME()
+//@   ensures old_checked_public: !private && !old(PASS_DERIVES_PUB_MASTER(m, bytes(oldPassphrase))) ==> err != nil && DB_SAME()
+//@   ensures lock_state_kept: LOCKED(m) == old(LOCKED(m)) && WATCHONLY(m) == old(WATCHONLY(m))
+//@   ensures private_keeps_cpub: private && err == nil ==> SLOT_KEPT(B_MAIN(ns), bytes(cryptoPubKeyName))
+//@   ensures private_keeps_mpub: private && err == nil ==> SLOT_KEPT(B_MAIN(ns), bytes(masterPubKeyName))
+//@   ensures private_params_stored: private && err == nil ==> HAS(B_MAIN(ns), bytes(masterPrivKeyName)) && blen(VAL(B_MAIN(ns), bytes(masterPrivKeyName))) == 88
+//@   ensures private_keys_stored: private && err == nil ==> HAS(B_MAIN(ns), bytes(cryptoPrivKeyName)) && HAS(B_MAIN(ns), bytes(cryptoScriptKeyName))
+//@   ensures public_keeps_cpriv: !private && err == nil ==> SLOT_KEPT(B_MAIN(ns), bytes(cryptoPrivKeyName))
+//@   ensures public_keeps_cscript: !private && err == nil ==> SLOT_KEPT(B_MAIN(ns), bytes(cryptoScriptKeyName))
+//@   ensures public_keeps_mpriv: !private && err == nil ==> SLOT_KEPT(B_MAIN(ns), bytes(masterPrivKeyName))
+//@   ensures public_params_stored: !private && err == nil ==> HAS(B_MAIN(ns), bytes(masterPubKeyName)) && blen(VAL(B_MAIN(ns), bytes(masterPubKeyName))) == 88
+//@   ensures public_key_stored: !private && err == nil ==> HAS(B_MAIN(ns), bytes(cryptoPubKeyName))
+//@   ensures failure_keeps_keys: err != nil ==> m.masterKeyPriv == old(m.masterKeyPriv) && m.masterKeyPub == old(m.masterKeyPub)
+
+// ConvertToWatchingOnly: a no-op on a watching-only manager; on success the
+// manager is locked (lock() ran if it was unlocked), marked watching-only, and
+// holds neither the private master key nor the private/script crypto keys nor
+// their encrypted forms; on failure the watching-only flag is not set.
+//@ func (*Manager).ConvertToWatchingOnly(m, ns) (err)
+//@   property C05 C04
+//@   requires nonnil: m != nil && (!WATCHONLY(m) ==> KEYS_PRESENT(m))
+//@   requires wf: SCOPES_WF(m) && ACCT_MAPS_WF() && ADDR_MAPS_WF()
+//@   requires db: MAINWF(ns)
+//@   ensures already_watch_only: old(WATCHONLY(m)) ==> err == nil && DB_SAME() && LOCKED(m) == old(LOCKED(m)) && WATCHONLY(m)
+//@   ensures converts: err == nil ==> WATCHONLY(m) && (!old(WATCHONLY(m)) ==> LOCKED(m))
+//@   ensures drops_private_keys: err == nil && !old(WATCHONLY(m)) ==> m.masterKeyPriv == nil && m.cryptoKeyPriv == nil && m.cryptoKeyScript == nil
+//@       && m.cryptoKeyPrivEncrypted == nil && m.cryptoKeyScriptEncrypted == nil
+//@   ensures failure_not_marked: err != nil ==> WATCHONLY(m) == old(WATCHONLY(m)) && LOCKED(m) == old(LOCKED(m))
+//@   ensures watch_only_written: err == nil && !old(WATCHONLY(m)) ==> HAS(B_MAIN(ns), bytes(watchingOnlyName)) && blen(VAL(B_MAIN(ns), bytes(watchingOnlyName))) == 1
+//@       && bat(VAL(B_MAIN(ns), bytes(watchingOnlyName)), 0) == 1
+
+// a freshly built manager (Open / Create -> loadManager -> newManager) starts locked,
+// with the watching-only flag as stored, fresh zero private/script crypto keys
+//@ func newManager(chainParams, masterKeyPub, masterKeyPriv, cryptoKeyPub, cryptoKeyPrivEncrypted, cryptoKeyScriptEncrypted, syncInfo, birthday, privPassphraseSalt, scopedManagers, watchingOnly) (m)
+//@   property C05
+//@   requires nonnil: syncInfo != nil
+//@   invariant 1 locked: m != nil && LOCKED(m) && WATCHONLY(m) == watchingOnly
+//@   ensures starts_locked: m != nil && LOCKED(m)
+//@   ensures watch_only_as_given: WATCHONLY(m) == watchingOnly
+//@   ensures keys_installed: m.masterKeyPriv == masterKeyPriv && m.masterKeyPub == masterKeyPub && m.cryptoKeyPub == cryptoKeyPub && m.cryptoKeyPriv != nil && m.cryptoKeyScript != nil
+// loadManager / Open: a manager read from the database starts locked; the public
+// passphrase must derive the stored public master key
+//@ func loadManager(ns, pubPassphrase, chainParams) (m, err)
+//@   property C05 C04
+//@   invariant 1 locked: mgr != nil && LOCKED(mgr) && WATCHONLY(mgr) == watchingOnly
+//@   ensures starts_locked: err == nil ==> m != nil && LOCKED(m)
+//@   ensures failure: err != nil ==> m == nil
+//@   ensures reads_watch_only_flag: ns != nil && select(DBlive, B_MAIN(ns)) && err == nil ==> HAS(B_MAIN(ns), bytes(watchingOnlyName)) && WATCHONLY(m) == (bat(VAL(B_MAIN(ns), bytes(watchingOnlyName)), 0) != 0)
+//@ func Open(ns, pubPassphrase, chainParams) (m, err)
+//@   property C05
+//@   ensures starts_locked: err == nil ==> m != nil && LOCKED(m)
+//@   ensures failure: err != nil ==> m == nil
+
+// ---- C04: key material reaches the database only as ciphertext of the right crypto key ----
+// cipher(ct, kind): ct is the value returned by Encrypt of a crypto key of that kind
+// (1 = public, 2 = private, 3 = script). The predicate is introduced only by the contract of
+// EncryptorDecryptor.Encrypt below (TRUSTED interface contract; the only non-test
+// implementation is snacl.(*CryptoKey).Encrypt, proved in C17 to return nonce || secretbox.Seal).
+// keyKind(k): the kind of the crypto key object k; which Manager field holds which kind is the
+// data invariant KINDS_OK (the three keys are distinct objects).
+//@ spec func cipher(ct Bytes, kind Int) Bool
+//@ spec func keyKind(k Iface) Int
+//@ macro KINDS_OK(m) = (keyKind(m.cryptoKeyPub) == 1 && keyKind(m.cryptoKeyPriv) == 2 && keyKind(m.cryptoKeyScript) == 3)
+//@ macro IS_CIPHER_OR_NIL(b, kind) = (b != nil ==> cipher(bytes(b), kind))
+//@ iface EncryptorDecryptor.Encrypt(k, in) (out, err)
+//@   trusted
+//@   modifies @M(uint8), randCtr
+//@   ensures sealed: err == nil ==> out != nil && fresh(out) && cipher(bytes(out), keyKind(k)) && len(out) == len(in) + 40
+//@   ensures failure: err != nil ==> out == nil
+//@   ensures frame: forall o Int :: {select(@M(uint8), o)} o != out.base ==> select(@M(uint8), o) == select(old(@M(uint8)), o)
+
+//@ macro B_MAIN(ns) = sub(bid(ns), bytes(mainBucketName))
+//@ macro MAINWF(ns) = (ns != nil && select(DBlive, B_MAIN(ns)))
+// (the slot name is passed as bytes(<package-level name>) so that it denotes the constant byte string)
+//@ macro SLOT_IS(id, kname, arg) = (arg != nil ==> HAS(id, kname) && VAL(id, kname) == old(bytes(arg)))
+//@ macro SLOT_KEPT(id, kname) = (HAS(id, kname) == old(HAS(id, kname)) && VAL(id, kname) == old(VAL(id, kname)))
+
+// the three crypto-key slots: each slot receives its own argument, a nil argument leaves its slot alone
+//@ func putCryptoKeys(ns, pubKeyEncrypted, privKeyEncrypted, scriptKeyEncrypted) (err)
+//@   property C04
+//@   requires wf: MAINWF(ns)
+//@   ensures stored: err == nil ==> SLOT_IS(B_MAIN(ns), bytes(cryptoPubKeyName), pubKeyEncrypted) && SLOT_IS(B_MAIN(ns), bytes(cryptoPrivKeyName), privKeyEncrypted)
+//@       && SLOT_IS(B_MAIN(ns), bytes(cryptoScriptKeyName), scriptKeyEncrypted)
+//@   ensures nil_skipped: err == nil ==> (pubKeyEncrypted == nil ==> SLOT_KEPT(B_MAIN(ns), bytes(cryptoPubKeyName))) && (privKeyEncrypted == nil ==> SLOT_KEPT(B_MAIN(ns), bytes(cryptoPrivKeyName)))
+//@       && (scriptKeyEncrypted == nil ==> SLOT_KEPT(B_MAIN(ns), bytes(cryptoScriptKeyName)))
+//@   ensures others_kept: DBlive == old(DBlive) && (forall k Bytes :: {select(select(DBhas, B_MAIN(ns)), k)} k != bytes(cryptoPubKeyName) && k != bytes(cryptoPrivKeyName) && k != bytes(cryptoScriptKeyName) ==>
+//@       HAS(B_MAIN(ns), k) == old(HAS(B_MAIN(ns), k)) && VAL(B_MAIN(ns), k) == old(VAL(B_MAIN(ns), k)))
+
+//@ func putMasterKeyParams(ns, pubParams, privParams) (err)
+//@   property C04
+//@   requires wf: MAINWF(ns)
+//@   ensures stored: err == nil ==> SLOT_IS(B_MAIN(ns), bytes(masterPubKeyName), pubParams) && SLOT_IS(B_MAIN(ns), bytes(masterPrivKeyName), privParams)
+//@   ensures nil_skipped: err == nil ==> (pubParams == nil ==> SLOT_KEPT(B_MAIN(ns), bytes(masterPubKeyName))) && (privParams == nil ==> SLOT_KEPT(B_MAIN(ns), bytes(masterPrivKeyName)))
+//@   ensures others_kept: DBlive == old(DBlive) && (forall k Bytes :: {select(select(DBhas, B_MAIN(ns)), k)} k != bytes(masterPubKeyName) && k != bytes(masterPrivKeyName) ==>
+//@       HAS(B_MAIN(ns), k) == old(HAS(B_MAIN(ns), k)) && VAL(B_MAIN(ns), k) == old(VAL(B_MAIN(ns), k)))
+
+// master HD keys: private under the private crypto key, public under the public one
+//@ func putMasterHDKeys(ns, masterHDPrivEnc, masterHDPubEnc) (err)
+//@   property C04
+//@   requires wf: MAINWF(ns)
+//@   requires right_key: IS_CIPHER_OR_NIL(masterHDPrivEnc, 2) && IS_CIPHER_OR_NIL(masterHDPubEnc, 1)
+//@   ensures stored: err == nil ==> SLOT_IS(B_MAIN(ns), bytes(masterHDPrivName), masterHDPrivEnc) && SLOT_IS(B_MAIN(ns), bytes(masterHDPubName), masterHDPubEnc)
+//@   ensures others_kept: DBlive == old(DBlive) && (forall k Bytes :: {select(select(DBhas, B_MAIN(ns)), k)} k != bytes(masterHDPrivName) && k != bytes(masterHDPubName) ==>
+//@       HAS(B_MAIN(ns), k) == old(HAS(B_MAIN(ns), k)) && VAL(B_MAIN(ns), k) == old(VAL(B_MAIN(ns), k)))
+
+//@ func putWatchingOnly(ns, watchingOnly) (err)
+//@   property C04 C05
+//@   requires wf: MAINWF(ns)
+//@   ensures stored: err == nil ==> HAS(B_MAIN(ns), bytes(watchingOnlyName)) && blen(VAL(B_MAIN(ns), bytes(watchingOnlyName))) == 1
+//@       && bat(VAL(B_MAIN(ns), bytes(watchingOnlyName)), 0) == (watchingOnly ? 1 : 0)
+//@   ensures others_kept: DBlive == old(DBlive) && (forall k Bytes :: {select(select(DBhas, B_MAIN(ns)), k)} k != bytes(watchingOnlyName) ==>
+//@       HAS(B_MAIN(ns), k) == old(HAS(B_MAIN(ns), k)) && VAL(B_MAIN(ns), k) == old(VAL(B_MAIN(ns), k)))
+//@ func fetchWatchingOnly(ns) (r, err)
+//@   property C04 C05
+//@   requires wf: MAINWF(ns)
+//@   ensures reads_flag: err == nil ==> HAS(B_MAIN(ns), bytes(watchingOnlyName)) && blen(VAL(B_MAIN(ns), bytes(watchingOnlyName))) == 1
+//@       && r == (bat(VAL(B_MAIN(ns), bytes(watchingOnlyName)), 0) != 0)
+//@   ensures malformed: !HAS(B_MAIN(ns), bytes(watchingOnlyName)) || blen(VAL(B_MAIN(ns), bytes(watchingOnlyName))) != 1 ==> err != nil
+
+// typed put helpers: every key-material argument must be a ciphertext of the right crypto key
+// (public material under the public key, private keys under the private key, secret scripts
+// under the script key); nil means "not stored"
+//@ func putCoinTypeKeys(ns, scope, coinTypePubKeyEnc, coinTypePrivKeyEnc) (err)
+//@   property C04
+//@   requires right_key: IS_CIPHER_OR_NIL(coinTypePubKeyEnc, 1) && IS_CIPHER_OR_NIL(coinTypePrivKeyEnc, 2)
+//@ func putDefaultAccountInfo(ns, scope, account, encryptedPubKey, encryptedPrivKey, nextExternalIndex, nextInternalIndex, name) (err)
+//@   property C04
+//@   requires right_key: IS_CIPHER_OR_NIL(encryptedPubKey, 1) && IS_CIPHER_OR_NIL(encryptedPrivKey, 2)
+//@ func putWatchOnlyAccountInfo(ns, scope, account, encryptedPubKey, masterKeyFingerprint, nextExternalIndex, nextInternalIndex, name, addrSchema) (err)
+//@   property C04
+//@   requires right_key: IS_CIPHER_OR_NIL(encryptedPubKey, 1)
+//@ func putImportedAddress(ns, scope, addressID, account, status, encryptedPubKey, encryptedPrivKey) (err)
+//@   property C04
+//@   requires right_key: IS_CIPHER_OR_NIL(encryptedPubKey, 1) && IS_CIPHER_OR_NIL(encryptedPrivKey, 2)
+//@ func putScriptAddress(ns, scope, addressID, account, status, encryptedHash, encryptedScript) (err)
+//@   property C04
+//@   requires right_key: IS_CIPHER_OR_NIL(encryptedHash, 1) && IS_CIPHER_OR_NIL(encryptedScript, 3)
+//@ func putWitnessScriptAddress(ns, scope, addressID, account, status, witnessVersion, isSecretScript, encryptedHash, encryptedScript) (err)
+//@   property C04
+//@   requires right_key: IS_CIPHER_OR_NIL(encryptedHash, 1) && IS_CIPHER_OR_NIL(encryptedScript, isSecretScript ? 3 : 1)
+
+// the writers: what they hand to the put helpers comes out of Encrypt of the right key
+//@ func createManagerKeyScope(ns, scope, root, cryptoKeyPub, cryptoKeyPriv) (err)
+//@   property C04
+//@   requires nonnil: root != nil && cryptoKeyPub != nil && cryptoKeyPriv != nil
+//@   requires kinds: keyKind(cryptoKeyPub) == 1 && keyKind(cryptoKeyPriv) == 2
+//@ func (*ScopedKeyManager).newAccount(s, ns, account, name) (err)
+//@   property C04
+//@   requires nonnil: s != nil && s.rootManager != nil && s.rootManager.cryptoKeyPub != nil && s.rootManager.cryptoKeyPriv != nil
+//@   requires kinds: KINDS_OK(s.rootManager)
+//@ func (*ScopedKeyManager).newAccountWatchingOnly(s, ns, account, name, pubKey, masterKeyFingerprint, addrSchema) (err)
+//@   property C04
+//@   requires nonnil: s != nil && s.rootManager != nil && s.rootManager.cryptoKeyPub != nil && pubKey != nil
+//@   requires kinds: KINDS_OK(s.rootManager)
+
+// row serialisers: the output is exactly the documented concatenation of the arguments
+// (every byte of the result is accounted for, so no further field can ride along). The
+// lengths are stored as uint32: the layout is stated for inputs below 2 GiB (for larger ones
+// the length arithmetic wraps; safety.ovf is then not provable and not claimed).
+//@ macro SMALL2(a, b) = (len(a) + len(b) < 2147483648)
+//@ func serializeImportedAddress(encryptedPubKey, encryptedPrivKey) (r)
+//@   property C04
+//@   ensures length: SMALL2(encryptedPubKey, encryptedPrivKey) ==> len(r) == 8 + len(encryptedPubKey) + len(encryptedPrivKey)
+//@   ensures pub_len: SMALL2(encryptedPubKey, encryptedPrivKey) ==> (forall j Int :: {r[j]} 0 <= j && j < 4 ==> r[j] == le32byte(len(encryptedPubKey), j))
+//@   ensures pub: SMALL2(encryptedPubKey, encryptedPrivKey) ==> (forall j Int :: {r[j]} 4 <= j && j < 4 + len(encryptedPubKey) ==> r[j] == encryptedPubKey[j - 4])
+//@   ensures priv_len: SMALL2(encryptedPubKey, encryptedPrivKey) ==> (forall j Int :: {r[j]} 4 + len(encryptedPubKey) <= j && j < 8 + len(encryptedPubKey) ==> r[j] == le32byte(len(encryptedPrivKey), j - 4 - len(encryptedPubKey)))
+//@   ensures priv: SMALL2(encryptedPubKey, encryptedPrivKey) ==> (forall j Int :: {r[j]} 8 + len(encryptedPubKey) <= j && j < len(r) ==> r[j] == encryptedPrivKey[j - 8 - len(encryptedPubKey)])
+//@   ensures inputs_untouched: (forall i Int :: {encryptedPubKey[i]} 0 <= i && i < len(encryptedPubKey) ==> encryptedPubKey[i] == old(encryptedPubKey[i]))
+//@       && (forall i Int :: {encryptedPrivKey[i]} 0 <= i && i < len(encryptedPrivKey) ==> encryptedPrivKey[i] == old(encryptedPrivKey[i]))
+//@ func serializeScriptAddress(encryptedHash, encryptedScript) (r)
+//@   property C04
+//@   ensures length: SMALL2(encryptedHash, encryptedScript) ==> len(r) == 8 + len(encryptedHash) + len(encryptedScript)
+//@   ensures hash_len: SMALL2(encryptedHash, encryptedScript) ==> (forall j Int :: {r[j]} 0 <= j && j < 4 ==> r[j] == le32byte(len(encryptedHash), j))
+//@   ensures hash: SMALL2(encryptedHash, encryptedScript) ==> (forall j Int :: {r[j]} 4 <= j && j < 4 + len(encryptedHash) ==> r[j] == encryptedHash[j - 4])
+//@   ensures script_len: SMALL2(encryptedHash, encryptedScript) ==> (forall j Int :: {r[j]} 4 + len(encryptedHash) <= j && j < 8 + len(encryptedHash) ==> r[j] == le32byte(len(encryptedScript), j - 4 - len(encryptedHash)))
+//@   ensures script: SMALL2(encryptedHash, encryptedScript) ==> (forall j Int :: {r[j]} 8 + len(encryptedHash) <= j && j < len(r) ==> r[j] == encryptedScript[j - 8 - len(encryptedHash)])
+//@ func serializeWitnessScriptAddress(witnessVersion, isSecretScript, encryptedHash, encryptedScript) (r)
+//@   property C04
+//@   ensures length: SMALL2(encryptedHash, encryptedScript) ==> len(r) == 10 + len(encryptedHash) + len(encryptedScript)
+//@   ensures header: SMALL2(encryptedHash, encryptedScript) ==> r[0] == witnessVersion && r[1] == (isSecretScript ? 1 : 0)
+//@   ensures hash_len: SMALL2(encryptedHash, encryptedScript) ==> (forall j Int :: {r[j]} 2 <= j && j < 6 ==> r[j] == le32byte(len(encryptedHash), j - 2))
+//@   ensures hash: SMALL2(encryptedHash, encryptedScript) ==> (forall j Int :: {r[j]} 6 <= j && j < 6 + len(encryptedHash) ==> r[j] == encryptedHash[j - 6])
+//@   ensures script_len: SMALL2(encryptedHash, encryptedScript) ==> (forall j Int :: {r[j]} 6 + len(encryptedHash) <= j && j < 10 + len(encryptedHash) ==> r[j] == le32byte(len(encryptedScript), j - 6 - len(encryptedHash)))
+//@   ensures script: SMALL2(encryptedHash, encryptedScript) ==> (forall j Int :: {r[j]} 10 + len(encryptedHash) <= j && j < len(r) ==> r[j] == encryptedScript[j - 10 - len(encryptedHash)])
+//@ func serializeChainedAddress(branch, index) (r)
+//@   property C04 C03
+//@   ensures length: len(r) == 8
+//@   ensures branch: forall j Int :: {r[j]} 0 <= j && j < 4 ==> r[j] == le32byte(branch, j)
+//@   ensures index: forall j Int :: {r[j]} 4 <= j && j < 8 ==> r[j] == le32byte(index, j - 4)
+//@ func serializeAccountRow(row) (r)
+//@   property C04
+//@   requires nonnil: row != nil
+//@   ensures length: len(row.rawData) < 2147483648 ==> len(r) == 5 + len(row.rawData)
+//@   ensures header: len(row.rawData) < 2147483648 ==> r[0] == row.acctType && (forall j Int :: {r[j]} 1 <= j && j < 5 ==> r[j] == le32byte(len(row.rawData), j - 1))
+//@   ensures raw: len(row.rawData) < 2147483648 ==> (forall j Int :: {r[j]} 5 <= j && j < len(r) ==> r[j] == row.rawData[j - 5])
+//@ func serializeAddressRow(row) (r)
+//@   property C04
+//@   requires nonnil: row != nil
+//@   ensures length: len(row.rawData) < 2147483648 ==> len(r) == 18 + len(row.rawData)
+//@   ensures header: len(row.rawData) < 2147483648 ==> r[0] == row.addrType && r[13] == row.syncStatus
+//@       && (forall j Int :: {r[j]} 1 <= j && j < 5 ==> r[j] == le32byte(row.account, j - 1))
+//@       && (forall j Int :: {r[j]} 5 <= j && j < 13 ==> r[j] == le64byte(row.addTime, j - 5))
+//@       && (forall j Int :: {r[j]} 14 <= j && j < 18 ==> r[j] == le32byte(len(row.rawData), j - 14))
+//@   ensures raw: len(row.rawData) < 2147483648 ==> (forall j Int :: {r[j]} 18 <= j && j < len(r) ==> r[j] == row.rawData[j - 18])
+//@ macro SMALL3(a, b, n) = (len(a) + len(b) + len(n) < 2147483648)
+//@ func serializeDefaultAccountRow(encryptedPubKey, encryptedPrivKey, nextExternalIndex, nextInternalIndex, name) (r)
+//@   property C04 C08
+//@   ensures length: SMALL3(encryptedPubKey, encryptedPrivKey, name) ==> len(r) == 20 + len(encryptedPubKey) + len(encryptedPrivKey) + len(name)
+//@   ensures pub_len: SMALL3(encryptedPubKey, encryptedPrivKey, name) ==> (forall j Int :: {r[j]} 0 <= j && j < 4 ==> r[j] == le32byte(len(encryptedPubKey), j))
+//@   ensures pub: SMALL3(encryptedPubKey, encryptedPrivKey, name) ==> (forall j Int :: {r[j]} 4 <= j && j < 4 + len(encryptedPubKey) ==> r[j] == encryptedPubKey[j - 4])
+//@   ensures priv_len: SMALL3(encryptedPubKey, encryptedPrivKey, name) ==> (forall j Int :: {r[j]} 4 + len(encryptedPubKey) <= j && j < 8 + len(encryptedPubKey) ==> r[j] == le32byte(len(encryptedPrivKey), j - 4 - len(encryptedPubKey)))
+//@   ensures priv: SMALL3(encryptedPubKey, encryptedPrivKey, name) ==> (forall j Int :: {r[j]} 8 + len(encryptedPubKey) <= j && j < 8 + len(encryptedPubKey) + len(encryptedPrivKey) ==> r[j] == encryptedPrivKey[j - 8 - len(encryptedPubKey)])
+//@   ensures next_external: SMALL3(encryptedPubKey, encryptedPrivKey, name) ==> (forall j Int :: {r[j]} 8 + len(encryptedPubKey) + len(encryptedPrivKey) <= j && j < 12 + len(encryptedPubKey) + len(encryptedPrivKey) ==>
+//@       r[j] == le32byte(nextExternalIndex, j - 8 - len(encryptedPubKey) - len(encryptedPrivKey)))
+//@   ensures next_internal: SMALL3(encryptedPubKey, encryptedPrivKey, name) ==> (forall j Int :: {r[j]} 12 + len(encryptedPubKey) + len(encryptedPrivKey) <= j && j < 16 + len(encryptedPubKey) + len(encryptedPrivKey) ==>
+//@       r[j] == le32byte(nextInternalIndex, j - 12 - len(encryptedPubKey) - len(encryptedPrivKey)))
+//@   ensures name_len: SMALL3(encryptedPubKey, encryptedPrivKey, name) ==> (forall j Int :: {r[j]} 16 + len(encryptedPubKey) + len(encryptedPrivKey) <= j && j < 20 + len(encryptedPubKey) + len(encryptedPrivKey) ==>
+//@       r[j] == le32byte(len(name), j - 16 - len(encryptedPubKey) - len(encryptedPrivKey)))
+//@   ensures name: SMALL3(encryptedPubKey, encryptedPrivKey, name) ==> (forall j Int :: {r[j]} 20 + len(encryptedPubKey) + len(encryptedPrivKey) <= j && j < len(r) ==>
+//@       r[j] == name[j - 20 - len(encryptedPubKey) - len(encryptedPrivKey)])
+
+// ---- C03: an address created while the wallet can sign for the account carries its private key ----
+// (derivation edges are tracked by the ghosts hdParent / hdIndex of the hdkeychain contract:
+// "key is the child `index` of the branch `branch` of account key K" = hdParent(hdParent(key)) == K)
+// unlocked (and not watching-only) => every cached account that has an encrypted private key holds the decrypted one
+//@ macro UNLOCKED_KEYS() = (forall sm *ScopedKeyManager, a Int :: {has(sm.acctInfo, a)} sm.acctInfo != nil && has(sm.acctInfo, a) && sm.rootManager != nil
+//@     && !S_LOCKED(sm) && !S_WATCHONLY(sm) && len(sm.acctInfo[a].acctKeyEncrypted) != 0 ==> sm.acctInfo[a].acctKeyPriv != nil)
+// a decrypted account private key exists only while the manager is unlocked or being unlocked
+// (established by lock()#accounts_wiped; Unlock fills the keys inside its critical section)
+//@ macro PRIV_ONLY_UNLOCKED(s, acctInfo) = (acctInfo != nil && acctInfo.acctKeyPriv != nil ==> !S_WATCHONLY(s) && (!S_LOCKED(s) || ROOT_MTX_HELD(s)))
+//@ macro LOCKED_KEYS_WIPED() = (forall sm *ScopedKeyManager, a Int :: {has(sm.acctInfo, a)} sm.acctInfo != nil && has(sm.acctInfo, a) && sm.rootManager != nil ==> PRIV_ONLY_UNLOCKED(sm, sm.acctInfo[a]))
+// derivation edges of keys that existed before a call are not rewritten by it
+//@ macro HD_EDGES_KEPT() = (forall o Int :: {select(hdParent, o)} oldalloc(o) ==> select(hdParent, o) == select(old(hdParent), o))
+//@ macro SIGNABLE(s, acctInfo) = (!S_LOCKED(s) && !S_WATCHONLY(s) && acctInfo != nil && len(acctInfo.acctKeyEncrypted) != 0)
+//@ func newManagedAddressFromExtKey(s, derivationPath, key, addrType, acctInfo) (r, err)
+//@   property C03
+//@   requires nonnil: s != nil && s.rootManager != nil && key != nil
+//@   requires signable_when_unlocked: SIGNABLE(s, acctInfo) ==> acctInfo.acctKeyPriv != nil && select(hdParent, select(hdParent, key)) == acctInfo.acctKeyPriv
+//@   requires priv_only_unlocked: PRIV_ONLY_UNLOCKED(s, acctInfo)
+//@   ensures result: err == nil ==> r != nil
+//@   ensures key_material: err == nil && old(key.isPrivate) ==> len(r.privKeyEncrypted) != 0
+//@   ensures public_only: err == nil && !old(key.isPrivate) ==> r.privKeyEncrypted == nil && r.privKeyCT == nil
+//@   ensures edges_kept: HD_EDGES_KEPT()
+//@   ensures state_kept: @H(atomic.Bool.v) == old(@H(atomic.Bool.v)) && @H(accountInfo.acctKeyPriv) == old(@H(accountInfo.acctKeyPriv)) && @H(accountInfo.acctKeyEncrypted) == old(@H(accountInfo.acctKeyEncrypted))
+//@       && @H(accountInfo.acctKeyPub) == old(@H(accountInfo.acctKeyPub)) && held == old(held) && SKM_PTRS_KEPT()
+//@ func newManagedAddressWithoutPrivKey(m, derivationPath, pubKey, compressed, addrType) (r, err)
+//@   property C03 C05
+//@   requires nonnil: m != nil && m.rootManager != nil && pubKey != nil
+//@   ensures result: err == nil ==> r != nil && fresh(r) && r.privKeyEncrypted == nil && r.privKeyCT == nil && r.manager == m && r.pubKey == pubKey && r.addrType == addrType
+//@       && r.compressed == compressed && !r.imported && !r.internal
+//@   ensures failure: err != nil ==> r == nil
+//@ func newManagedAddress(s, derivationPath, privKey, compressed, addrType, acctInfo) (r, err)
+//@   property C03 C04
+//@   requires nonnil: s != nil && s.rootManager != nil && privKey != nil
+//@   requires priv_only_unlocked: PRIV_ONLY_UNLOCKED(s, acctInfo)
+//@   ensures result: err == nil ==> r != nil && len(r.privKeyEncrypted) != 0 && r.manager == s
+//@   ensures failure: err != nil ==> r == nil
+//@   ensures edges_kept: HD_EDGES_KEPT()
+// the signature check of the address self-test is a read-only verdict
+//@ iface signature.Verify(sig, msg, pub) (r)
+//@   trusted
+//@   pure
+//@ func (*managedAddress).Validate(a, msg, priv) (err)
+//@   property C03
+//@   requires nonnil: a != nil && a.manager != nil && a.manager.rootManager != nil && priv != nil && a.pubKey != nil
+//@   ensures address_untouched: a.privKeyEncrypted == old(a.privKeyEncrypted) && a.privKeyCT == old(a.privKeyCT) && a.manager == old(a.manager) && a.pubKey == old(a.pubKey)
+//@       && (forall o Int :: {select(@M(uint8), o)} oldalloc(o) ==> select(@M(uint8), o) == select(old(@M(uint8)), o))
+
+// extendAddresses / nextAddresses: while the wallet can sign for the account (unlocked, not
+// watching-only, account has an encrypted private key) the addresses are derived from the
+// account PRIVATE key, so that they carry key material; otherwise they are queued for
+// derive-on-unlock. (DESIGN §7 D3: extendAddresses computes the watch-only condition as
+// `acctKeyPriv != nil`, inverted w.r.t. nextAddresses: `signable_or_queued` is expected to
+// fail on the unchanged code.)
+//@ func (*ScopedKeyManager).extendAddresses(s, ns, account, lastIndex, internal) (err)
+//@   property C03
+//@   replay waddrmgr_extend.go
+//@   requires nonnil: s != nil && s.rootManager != nil
+//@   requires wf: ACCT_MAPS_WF() && ACCT_PUB_PRESENT() && UNLOCKED_KEYS() && LOCKED_KEYS_WIPED()
+//@   invariant 1 signable_or_queued: SIGNABLE(s, acctInfo) ==> acctKey != nil && acctKey == acctInfo.acctKeyPriv
+//@   invariant 1 branch: branchKey != nil && select(hdParent, branchKey) == acctKey && PRIV_ONLY_UNLOCKED(s, acctInfo) && acctInfo != nil
+//@   invariant 2 signable_or_queued: SIGNABLE(s, acctInfo) ==> acctKey != nil && acctKey == acctInfo.acctKeyPriv
+//@   invariant 2 branch: branchKey != nil && select(hdParent, branchKey) == acctKey && PRIV_ONLY_UNLOCKED(s, acctInfo) && acctInfo != nil
+//@ func (*ScopedKeyManager).nextAddresses(s, ns, account, numAddresses, internal) (r, err)
+//@   property C03
+//@   requires nonnil: s != nil && s.rootManager != nil
+//@   requires wf: ACCT_MAPS_WF() && ACCT_PUB_PRESENT() && UNLOCKED_KEYS() && LOCKED_KEYS_WIPED()
+//@   invariant 1 signable_or_queued: SIGNABLE(s, acctInfo) ==> acctKey != nil && acctKey == acctInfo.acctKeyPriv
+//@   invariant 1 branch: branchKey != nil && select(hdParent, branchKey) == acctKey && PRIV_ONLY_UNLOCKED(s, acctInfo) && acctInfo != nil
+//@   invariant 2 signable_or_queued: SIGNABLE(s, acctInfo) ==> acctKey != nil && acctKey == acctInfo.acctKeyPriv
+//@   invariant 2 branch: branchKey != nil && select(hdParent, branchKey) == acctKey && PRIV_ONLY_UNLOCKED(s, acctInfo) && acctInfo != nil
+
+// Decrypt of the crypto keys (TRUSTED interface contract, implementation snacl.(*CryptoKey).Decrypt,
+// proved in C17): anything shorter than a nonce is refused, the result is newly allocated.
+//@ iface EncryptorDecryptor.Decrypt(k, in) (out, err)
+//@   trusted
+//@   modifies @M(uint8)
+//@   ensures malformed: len(in) < 24 ==> err != nil && out == nil
+//@   ensures failure: err != nil ==> out == nil
+//@   ensures result: err == nil ==> fresh(out) && len(out) == len(in) - 40
+//@   ensures frame: forall o Int :: {select(@M(uint8), o)} o != out.base ==> select(@M(uint8), o) == select(old(@M(uint8)), o)
+
+// the key-slot names of the main bucket are pairwise different byte strings (proved from the literals)
+//@ lemma main_slot_names_distinct@C04: bytes(cryptoPubKeyName) != bytes(cryptoPrivKeyName) && bytes(cryptoPubKeyName) != bytes(cryptoScriptKeyName) && bytes(cryptoPrivKeyName) != bytes(cryptoScriptKeyName)
+//@     && bytes(masterPubKeyName) != bytes(masterPrivKeyName)
+//@     && bytes(cryptoPubKeyName) != bytes(masterPubKeyName) && bytes(cryptoPubKeyName) != bytes(masterPrivKeyName)
+//@     && bytes(cryptoPrivKeyName) != bytes(masterPubKeyName) && bytes(cryptoPrivKeyName) != bytes(masterPrivKeyName)
+//@     && bytes(cryptoScriptKeyName) != bytes(masterPubKeyName) && bytes(cryptoScriptKeyName) != bytes(masterPrivKeyName)
+
+// ---- C08: answers come from the database; caches follow the committed writes ----
+// key of a scope bucket: purpose and coin as two little-endian uint32 (the two bucket getters
+// carry no precondition so that their many callers get no new obligations; a missing "scope"
+// root bucket is a nil dereference inside them, which their safety.nilcall leaves unproved)
+//@ spec func skArr(p Int, c Int) [Int]Int
+//@ axiom skArr_def: forall p Int, c Int, i Int :: {select(skArr(p, c), i)} select(skArr(p, c), i) == ((0 <= i && i < 4) ? le32byte(p, i) : ((4 <= i && i < 8) ? le32byte(c, i - 4) : 0))
+//@ spec func K_scope(p Int, c Int) Bytes = mkbytes(8, skArr(p, c))
+//@ macro B_SCOPE(ns, scope) = sub(sub(bid(ns), bytes(scopeBucketName)), K_scope(scope.Purpose, scope.Coin))
+//@ func scopeToBytes(scope) (r)
+//@   property C08 C04
+//@   ensures key: scope != nil ==> bytes(r) == K_scope(scope.Purpose, scope.Coin)
+//@ func fetchWriteScopeBucket(ns, scope) (r, err)
+//@   property C08 C04
+//@   ensures found: ns != nil && scope != nil && err == nil ==> r != nil && bid(r) == B_SCOPE(ns, scope) && select(DBlive, B_SCOPE(ns, scope))
+//@   ensures missing: ns != nil && scope != nil && err != nil ==> r == nil && !select(DBlive, B_SCOPE(ns, scope))
+//@   ensures db_unchanged: DB_SAME()
+//@ func fetchReadScopeBucket(ns, scope) (r, err)
+//@   property C08 C04
+//@   ensures found: ns != nil && scope != nil && err == nil ==> r != nil && bid(r) == B_SCOPE(ns, scope) && select(DBlive, B_SCOPE(ns, scope))
+//@   ensures missing: ns != nil && scope != nil && err != nil ==> r == nil && !select(DBlive, B_SCOPE(ns, scope))
+//@   ensures db_unchanged: DB_SAME()
+//@ macro B_USED(ns, scope) = sub(B_SCOPE(ns, scope), bytes(usedAddrBucketName))
+//@ macro SCOPEWF_V(ns, scope) = (ns != nil && select(DBlive, sub(bid(ns), bytes(scopeBucketName))) && (select(DBlive, B_SCOPE(ns, scope)) ==> select(DBlive, B_USED(ns, scope))))
+//@ macro SCOPEWF(ns, scope) = (scope != nil && SCOPEWF_V(ns, scope))
+// the used flag of an address lives only in the database, keyed by sha256(address id)
+//@ func fetchAddressUsed(ns, scope, addressID) (r)
+//@   property C08
+//@   requires wf: SCOPEWF(ns, scope)
+//@   ensures reads_db: r == (select(DBlive, B_SCOPE(ns, scope)) && HAS(B_USED(ns, scope), sha256B(bytes(addressID))))
+//@   ensures db_unchanged: DB_SAME()
+//@ func markAddressUsed(ns, scope, addressID) (err)
+//@   property C08
+//@   requires wf: SCOPEWF(ns, scope)
+//@   ensures marked: err == nil ==> HAS(B_USED(ns, scope), sha256B(old(bytes(addressID))))
+//@   ensures others_kept: DBlive == old(DBlive) && (forall k Bytes :: {select(select(DBhas, B_USED(ns, scope)), k)} k != sha256B(old(bytes(addressID))) ==>
+//@       HAS(B_USED(ns, scope), k) == old(HAS(B_USED(ns, scope), k)))
+//@   ensures idempotent: old(select(DBlive, B_SCOPE(ns, scope)) && HAS(B_USED(ns, scope), sha256B(bytes(addressID)))) ==> err == nil && DB_SAME()
+//@   ensures failure: err != nil ==> DB_SAME()
+//@ func (*ScopedKeyManager).fetchUsed(s, ns, addressID) (r)
+//@   property C08
+//@   requires wf: s != nil && SCOPEWF_V(ns, s.scope)
+//@   ensures reads_db: r == (select(DBlive, B_SCOPE(ns, s.scope)) && HAS(B_USED(ns, s.scope), sha256B(bytes(addressID))))
+//@ func (*ScopedKeyManager).MarkUsed(s, ns, address) (err)
+//@   property C08
+//@   requires wf: s != nil && address != nil && SCOPEWF_V(ns, s.scope)
+//@   ensures marked: err == nil ==> HAS(B_USED(ns, s.scope), sha256B(scriptAddrB(address)))
+//@   ensures cache_never_grows: forall k Str :: {has(s.addrs, k)} has(s.addrs, k) ==> old(has(s.addrs, k))
+//@   ensures failure_keeps_cache: err != nil ==> (forall k Str :: {has(s.addrs, k)} has(s.addrs, k) == old(has(s.addrs, k)))
+// RenameAccount: the cached name follows the database row, and only when every write succeeded
+// (the failure side is the memory-after-disk clause of C10); no other account's name changes
+//@ func (*ScopedKeyManager).RenameAccount(s, ns, account, name) (err)
+//@   property C08
+//@   requires wf: s != nil
+//@   ensures mirror_name: err == nil && s.acctInfo != nil && has(s.acctInfo, account) && s.acctInfo[account] != nil ==> s.acctInfo[account].acctName == name
+//@   ensures other_names_kept: forall o Int :: {select(@H(accountInfo.acctName), o)} (s.acctInfo == nil || !has(s.acctInfo, account) || o != s.acctInfo[account]) ==>
+//@       select(@H(accountInfo.acctName), o) == select(old(@H(accountInfo.acctName)), o)
+//@   ensures failure_keeps_names: err != nil ==> @H(accountInfo.acctName) == old(@H(accountInfo.acctName))
+//@   ensures cache_membership_kept: forall a Int :: {has(s.acctInfo, a)} has(s.acctInfo, a) == old(has(s.acctInfo, a))
